@@ -48,9 +48,6 @@ Definition c10_scg_item_ok (it : ritem) : Prop :=
   | ItConst _ => True
   end.
 Definition c10_scg_dom (pd : parsed) : Prop := Forall c10_scg_item_ok (items_of pd).
-(* C10-scala-toplevel-alias is outside: under a package name without a dot nothing is written into the package-object section *)
-Definition c10_scg_toplevel_ok (cfg : sc_config) (pd : parsed) : Prop :=
-  contains_char sc_ch_dot (sc_package cfg) = true \/ (p_aliases pd = [] /\ sc_unsigned_integer_used pd = false).
 
 (* ------------------------------------------------------------------ names *)
 Lemma gname_ident n : c10_ident_ok n = true -> nm n -> gname n.
@@ -358,6 +355,19 @@ Proof.
     split; [apply (rsplit_app sc_ch_dot), gname_nodot, Hlast|]. unfold contains_char. rewrite existsb_app. cbn [existsb]. unfold sc_ch_dot. rewrite N.eqb_refl. cbn [orb]. apply orb_true_r.
 Qed.
 
+(* the same split as one statement: the parent segments (none for a name without a dot) and the last segment, which is
+   what scala.rs package_last_segment returns *)
+Lemma pkg_split pkg : c10_scg_pkg pkg ->
+  exists init last, Forall gname init /\ gname last /\
+    sc_rsplit_once sc_ch_dot pkg = match init with [] => None | _ => Some (join [46] init, last) end /\
+    (init = [] -> pkg = last).
+Proof.
+  intros (segs & Hne & Hs & ->). destruct (exists_last Hne) as (init & last & ->). apply Forall_app in Hs as [Hi Hl]. inversion Hl as [|? ? Hlast _]; subst.
+  exists init, last. split; [exact Hi|]. split; [exact Hlast|]. destruct init as [|a r].
+  - cbn [app join]. pose proof (gname_nodot _ Hlast) as Hd. split; [apply rsplit_none, Hd|reflexivity].
+  - split; [|discriminate]. rewrite join_snoc by discriminate. apply (rsplit_app sc_ch_dot), gname_nodot, Hlast.
+Qed.
+
 (* ------------------------------------------------------------------ the package object and the packaging *)
 Lemma L_pkg_obj : forall b tb, Tk b tb -> Tk (lit "package object " ++ b) (kwt "package" :: kwt "object" :: tb).
 Proof. assert (H : CFrag (lit "package object ") [kwt "package"; kwt "object"]) by lit_cfrag. exact H. Qed.
@@ -490,11 +500,11 @@ Proof. induction a as [|x a IH]; [reflexivity|]. cbn [app fold_right]. rewrite I
 
 (* ------------------------------------------------------------------ the whole file *)
 Theorem sc_generate_recognised uc cfg pd text :
-  Proofs.C10_SC.c10_sc_cfg_ok cfg = true -> c10_scg_cfg_ok cfg -> dom_C10 CSC pd = true -> c10_scg_dom pd -> c10_scg_toplevel_ok cfg pd ->
+  Proofs.C10_SC.c10_sc_cfg_ok cfg = true -> c10_scg_cfg_ok cfg -> dom_C10 CSC pd = true -> c10_scg_dom pd ->
   sc_generate uc cfg pd = Ok text ->
   exists n, c10_sc_recognise text = Some n /\ (List.length (p_aliases pd) + List.length (p_structs pd) + List.length (p_enums pd) <= n)%nat.
 Proof.
-  intros Hcfg (Gmap & Gpkg) Hdom Gdom Gtop H. unfold sc_generate in H.
+  intros Hcfg (Gmap & Gpkg) Hdom Gdom H. unfold sc_generate in H.
   apply bind_ok in H as (head & Hhead & H). apply bind_ok in H as (pobj & Hpobj & H). apply bind_ok in H as (pkg & Hpkg & H). injection H as <-.
   pose proof Hcfg as Hc. unfold Proofs.C10_SC.c10_sc_cfg_ok in Hc. rewrite !andb_true_iff in Hc. destruct Hc as [[_ Hver] _].
   unfold dom_C10 in Hdom. rewrite !forallb_app in Hdom. rewrite !andb_true_iff in Hdom. destruct Hdom as [Hal [Hst [Hen _]]].
@@ -518,25 +528,14 @@ Proof.
   { intros [s e] Ht. apply bind_ok in Ht as (s' & Hs & Ht). apply bind_ok in Ht as (e' & He & Ht). injection Ht as <- <-.
     destruct (sc_items_ps cfg Gmap true _ _ Ist Hs) as (c1 & n1 & P1 & L1 & K1). destruct (sc_items_ps cfg Gmap true _ _ Ien He) as (c2 & n2 & P2 & L2 & K2).
     exists (c1 ++ c2), (n1 ++ n2). split; [apply ps_app; assumption|]. rewrite sum_app, !map_length in *. split; [lia|apply Forall_app; split; assumption]. }
-  destruct (pkg_cases _ Gpkg) as [[Er Hdot]|(init & last & Hine & Hinit & Hlast & Er & Hdot)].
-  - (* a package name without a dot: everything stands at the top level; the package-object section is empty *)
-    destruct Gtop as [Gtop|[Ga Gu]]; [congruence|].
-    unfold sc_begin_file in Hhead. rewrite Er in Hhead. destruct (sc_package cfg) as [|p0 pr] eqn:Ep; [discriminate|]. rewrite <- Ep in Er, Hdot. injection Hhead as <-.
-    rewrite Ga, Gu in Hpobj. cbn [sc_is_empty negb orb] in Hpobj. injection Hpobj as <-.
-    assert (Hbody : exists c n, PS true pkg c n /\ (List.length (p_structs pd) + List.length (p_enums pd) <= fold_right plus O n)%nat /\ Forall NoPkg c).
-    { destruct (negb (sc_is_empty (p_structs pd)) || negb (sc_is_empty (p_enums pd))) eqn:Ec.
-      - apply bind_ok in Hpkg as (s & Hs & Hpkg). apply bind_ok in Hpkg as (e & He & Hpkg). injection Hpkg as <-.
-        unfold sc_begin_package, sc_end_package. rewrite Er, Hdot. cbn [app]. rewrite app_nil_r.
-        apply (Bpk (s, e)). rewrite Hs. cbn [bind]. rewrite He. reflexivity.
-      - injection Hpkg as <-. apply orb_false_iff in Ec as [E1 E2]. exists [], []. split; [apply ps_nil|]. split; [|constructor].
-        destruct (p_structs pd); [|discriminate]. destruct (p_enums pd); [|discriminate]. cbn; lia. }
-    destruct Hbody as (c & n & Hps & Hlen & Hk).
-    exists (fold_right plus O n). split; [|rewrite Ga; cbn [List.length]; lia].
-    match goal with |- c10_sc_recognise ?t = _ =>
-      replace t with (hdr ++ [] ++ pkg) by (unfold hdr, hdr_text; rewrite ?app_nil_r; norm_app; reflexivity) end.
-    apply (unit_text hdr k [] pkg c n Hh (Forall_nil _) Hps). destruct c as [|d cs]; [exact I|]. right; right. exact (Forall_inv Hk).
-  - (* parent.last: a package clause, the package object, the packaging *)
-    unfold sc_begin_file in Hhead. rewrite Er in Hhead. destruct (sc_package cfg) as [|p0 pr] eqn:Ep; [discriminate|]. rewrite <- Ep in Er, Hdot. injection Hhead as <-.
+  (* [parent.]last: a package clause when there is a parent, then the package object and the packaging, both named by the last
+     segment (the whole name when it has no dot) *)
+  destruct (pkg_split _ Gpkg) as (init & last & Hinit & Hlast & Er & Elast).
+  assert (Eseg : sc_package_last_segment cfg = last).
+  { unfold sc_package_last_segment. rewrite Er. destruct init; [apply Elast; reflexivity|reflexivity]. }
+  clear Elast.
+  unfold sc_begin_file in Hhead. rewrite Er in Hhead. destruct (sc_package cfg) as [|p0 pr] eqn:Ep; [discriminate|]. rewrite <- Ep in Er. injection Hhead as <-.
+  {
     assert (Hobj : exists c n, PS true pobj c n /\ (List.length (p_aliases pd) <= fold_right plus O n)%nat /\
                               match c with d :: _ => TopHead d | [] => True end).
     { destruct (sc_unsigned_integer_used pd || negb (sc_is_empty (p_aliases pd))) eqn:Ec.
@@ -548,7 +547,7 @@ Proof.
         destruct Hu as (c0 & n0 & P0). pose proof (ps_app false _ _ _ _ _ _ P0 P1) as P01.
         pose proof (ps_section true last _ _ _ Hlast P01) as Psec.
         eexists; eexists. split; [|split].
-        + unfold sc_begin_package_object, sc_end_package_object. rewrite Er, Hdot.
+        + unfold sc_begin_package_object, sc_end_package_object. rewrite Eseg. cbv zeta.
           match goal with |- PS true ?t _ _ =>
             replace t with (lit "package " ++ lit "object " ++ last ++ lit " {" ++ sc_nl ++ sc_nl ++
                   ((if sc_unsigned_integer_used pd then sc_render_decl sc_unsigned_aliases else []) ++ al) ++ lit "}" ++ sc_nl)
@@ -565,7 +564,7 @@ Proof.
         destruct (Bpk (s, e)) as (c1 & n1 & P1 & L1 & K1); [rewrite Hs; cbn [bind]; rewrite He; reflexivity|]. cbn [fst snd] in P1.
         pose proof (ps_section false last _ _ _ Hlast P1) as Psec.
         eexists; eexists. split; [|split].
-        + unfold sc_begin_package, sc_end_package. rewrite Er, Hdot.
+        + unfold sc_begin_package, sc_end_package. rewrite Eseg. cbv zeta.
           match goal with |- PS true ?t _ _ =>
             replace t with (lit "package " ++ [] ++ last ++ lit " {" ++ sc_nl ++ sc_nl ++ (s ++ e) ++ lit "}" ++ sc_nl)
             by (norm_app; reflexivity) end.
@@ -576,12 +575,12 @@ Proof.
         destruct (p_structs pd); [|discriminate]. destruct (p_enums pd); [|discriminate]. cbn; lia. }
     destruct Hobj as (c1 & n1 & P1 & L1 & T1). destruct Hpk as (c2 & n2 & P2 & L2 & T2).
     exists (fold_right plus O (n1 ++ n2)). split; [|rewrite sum_app; lia].
-    destruct init as [|i0 ir]; [congruence|].
     match goal with |- c10_sc_recognise ?t = _ =>
-      replace t with (hdr ++ (lit "package " ++ join [46] (i0 :: ir) ++ sc_nl ++ sc_nl) ++ (pobj ++ pkg))
-      by (unfold hdr, hdr_text; norm_app; reflexivity) end.
-    apply (unit_text hdr k (i0 :: ir) (pobj ++ pkg) (c1 ++ c2) (n1 ++ n2) Hh Hinit (ps_app true _ _ _ _ _ _ P1 P2)).
+      replace t with (hdr ++ (match init with [] => [] | _ => lit "package " ++ join [46] init ++ sc_nl ++ sc_nl end) ++ (pobj ++ pkg))
+      by (unfold hdr, hdr_text; destruct init; norm_app; reflexivity) end.
+    apply (unit_text hdr k init (pobj ++ pkg) (c1 ++ c2) (n1 ++ n2) Hh Hinit (ps_app true _ _ _ _ _ _ P1 P2)).
     destruct c1 as [|d cs]; [exact T2|exact T1].
+  }
 Qed.
 
 (* ------------------------------------------------------------------ the layout layer alone: lists of declarations *)
@@ -616,6 +615,23 @@ Proof.
   exists (fold_right plus O ([fold_right plus O n1] ++ [fold_right plus O n2])). split; [|cbn [app fold_right]; lia].
   destruct init as [|i0 ir]; [congruence|].
   pose proof (unit_text [] 0 (i0 :: ir) _ _ _ cfrag_nil Hi S12) as G. cbn [repeat] in G.
+  match goal with |- c10_sc_recognise ?t = _ => match type of G with _ -> c10_sc_recognise ?u = _ => replace t with u by (norm_app; reflexivity) end end.
+  apply G. left. eexists. reflexivity.
+Qed.
+
+(* package object c { aliases } / package c { classes and enums } with no package clause before them: the layout under a package
+   name without a dot (scala.rs after the /repo fix of C10-scala-toplevel-alias) *)
+Theorem sc_dotless_decls_recognised last das dps : gname last ->
+  Forall (fun d => c10_scg_decl_ok d /\ decl_top d = false) das -> Forall (fun d => c10_scg_decl_ok d /\ decl_top d = true) dps ->
+  exists n, c10_sc_recognise (lit "package object " ++ last ++ lit " {" ++ sc_nl ++ sc_nl ++ List.concat (map sc_render_decl das) ++ lit "}" ++ sc_nl ++
+                              lit "package " ++ last ++ lit " {" ++ sc_nl ++ sc_nl ++ List.concat (map sc_render_decl dps) ++ lit "}" ++ sc_nl) = Some n /\
+            (List.length das + List.length dps <= n)%nat.
+Proof.
+  intros Hl Ha Hp. destruct (decls_ps false das Ha) as (c1 & n1 & P1 & L1 & _). destruct (decls_ps true dps Hp) as (c2 & n2 & P2 & L2 & _).
+  pose proof (ps_section true last _ _ _ Hl P1) as S1. pose proof (ps_section false last _ _ _ Hl P2) as S2.
+  pose proof (ps_app true _ _ _ _ _ _ S1 S2) as S12.
+  exists (fold_right plus O ([fold_right plus O n1] ++ [fold_right plus O n2])). split; [|cbn [app fold_right]; lia].
+  pose proof (unit_text [] 0 [] _ _ _ cfrag_nil (Forall_nil _) S12) as G. cbn [repeat] in G.
   match goal with |- c10_sc_recognise ?t = _ => match type of G with _ -> c10_sc_recognise ?u = _ => replace t with u by (norm_app; reflexivity) end end.
   apply G. left. eexists. reflexivity.
 Qed.
@@ -717,7 +733,7 @@ Qed.
 
 Example C10_sc_grammar_nonvacuous :
   Proofs.C10_SC.c10_sc_cfg_ok g_cfg = true /\ c10_scg_cfg_ok g_cfg /\
-  dom_C10 CSC g_prog = true /\ c10_scg_dom g_prog /\ c10_scg_toplevel_ok g_cfg g_prog /\
+  dom_C10 CSC g_prog = true /\ c10_scg_dom g_prog /\
   known_C10 CSC (sc_package g_cfg) g_prog = [] /\ known_C10_sc_grammar (sc_package g_cfg) g_prog = [] /\
   sc_generate uc_exec g_cfg g_prog = Ok g_text /\
   c10_sc_recognise g_text = Some 12%nat /\
@@ -742,12 +758,12 @@ Example C10_sc_grammar_nonvacuous :
   c10_sc_recognise (g_drop_first 91 g_text) = None.
 Proof.
   split; [vm_compute; reflexivity|]. split; [exact g_cfg_ok|]. split; [vm_compute; reflexivity|]. split; [exact g_dom_ok|].
-  split; [left; vm_compute; reflexivity|]. repeat split; vm_compute; reflexivity.
+  repeat split; vm_compute; reflexivity.
 Qed.
 
 (* the witness, in the form stated in Props/C10.v *)
 Lemma grammar_witness :
-  Proofs.C10_SC.c10_sc_cfg_ok g_cfg = true /\ c10_scg_cfg_ok g_cfg /\ dom_C10 CSC g_prog = true /\ c10_scg_dom g_prog /\ c10_scg_toplevel_ok g_cfg g_prog /\
+  Proofs.C10_SC.c10_sc_cfg_ok g_cfg = true /\ c10_scg_cfg_ok g_cfg /\ dom_C10 CSC g_prog = true /\ c10_scg_dom g_prog /\
   known_C10 CSC (sc_package g_cfg) g_prog = [] /\ known_C10_sc_grammar (sc_package g_cfg) g_prog = [] /\
   sc_generate uc_exec g_cfg g_prog = Ok g_text /\ c10_sc_recognise g_text = Some 12%nat /\
   contains_sub (lit "package object onepassword {") g_text = true /\
@@ -760,7 +776,7 @@ Lemma grammar_witness :
   c10_sc_recognise (g_drop_first 44 g_text) = None /\
   c10_sc_recognise (g_drop_first 91 g_text) = None.
 Proof.
-  destruct C10_sc_grammar_nonvacuous as (A1 & A2 & A3 & A4 & A5 & A6 & A7 & A8 & A9 & _ & B11 & _ & _ & B14 & _ & _ & B17 & _ & _ & _ & _ & _ & B23 & C1 & C2 & C3 & C4 & C5).
+  destruct C10_sc_grammar_nonvacuous as (A1 & A2 & A3 & A4 & A6 & A7 & A8 & A9 & _ & B11 & _ & _ & B14 & _ & _ & B17 & _ & _ & _ & _ & _ & B23 & C1 & C2 & C3 & C4 & C5).
   repeat (split; [assumption|]). assumption.
 Qed.
 
@@ -787,13 +803,6 @@ Lemma scala_keyword_name_refuted :
     known_C10_sc_grammar (sc_package g_cfg) k_prog = ["C10-scala-keyword-name"%string] /\
     sc_generate uc_exec g_cfg k_prog = Ok text /\ contains_sub (lit "type: String,") text = true /\ contains_sub (lit "val: Int") text = true /\
     good_C10_lex CSC text = true /\ c10_sc_recognise text = None.
-Proof. eexists. repeat split; vm_compute; reflexivity. Qed.
-
-Lemma scala_toplevel_alias_refuted :
-  exists text, Proofs.C10_SC.c10_sc_cfg_ok t_cfg = true /\ dom_C10 CSC t_prog = true /\ known_C10 CSC (sc_package t_cfg) t_prog = [] /\
-    known_C10_sc_grammar (sc_package t_cfg) t_prog = ["C10-scala-toplevel-alias"%string] /\
-    sc_generate uc_exec t_cfg t_prog = Ok text /\ starts_with (lit "type UByte = Byte") text = true /\ contains_sub (lit "type Al = Vector[UInt]") text = true /\
-    contains_sub (lit "package") text = false /\ good_C10_lex CSC text = true /\ c10_sc_recognise text = None.
 Proof. eexists. repeat split; vm_compute; reflexivity. Qed.
 
 (* the recorded class C10-scala-default is seen by the recogniser as well: `= _` is not an Expr *)
@@ -836,26 +845,6 @@ Proof. induction l as [|x l IH]; [reflexivity|]. cbn [map existsb]. rewrite IH. 
 Lemma existsb_ext_ {A} (p q : A -> bool) l : (forall x, p x = q x) -> existsb p l = existsb q l.
 Proof. intros H. induction l as [|x l IH]; [reflexivity|]. cbn [existsb]. rewrite H, IH. reflexivity. Qed.
 
-Lemma contains_unsigned_eq t : sc_contains_unsigned t = c10_sc_unsigned_in t.
-Proof.
-  induction t as [id | id ps IH | t IH | t n IH | t IH | k v IHk IHv | t IH | p] using rtype_ind'; cbn [sc_contains_unsigned c10_sc_unsigned_in]; try assumption; try reflexivity.
-  - induction IH as [|x l Hx _ IHl]; [reflexivity|]. cbn [existsb]. rewrite Hx, IHl. reflexivity.
-  - rewrite IHk, IHv. reflexivity.
-Qed.
-
-Lemma unsigned_used_eq pd : sc_unsigned_integer_used pd = c10_sc_any_unsigned pd.
-Proof.
-  unfold sc_unsigned_integer_used, c10_sc_any_unsigned. cbv zeta. rewrite !existsb_app.
-  rewrite (existsb_map_ sc_contains_unsigned atype), (existsb_map_ sc_contains_unsigned fty). rewrite !existsb_flat_map. rewrite orb_assoc.
-  f_equal; [f_equal|].
-  - apply existsb_ext_. intros a. apply contains_unsigned_eq.
-  - apply existsb_ext_. intros s. apply existsb_ext_. intros f. apply contains_unsigned_eq.
-  - apply existsb_ext_. intros e. rewrite existsb_flat_map. apply existsb_ext_. intros [vs | t vs | fs vs].
-    + reflexivity.
-    + cbn [existsb]. rewrite orb_false_r. apply contains_unsigned_eq.
-    + rewrite existsb_map_. apply existsb_ext_. intros f. apply contains_unsigned_eq.
-Qed.
-
 (* a key-shaped name that does not start with a digit is identifier-shaped once its dashes are replaced *)
 Lemma key_sc_ident k : c10_key_ok k = true -> c10_digit_first k = false -> c10_sc_ident_ok (replace_char ch_dash ch_us k) = true.
 Proof.
@@ -877,11 +866,11 @@ Proof. reflexivity. Qed.
 
 Theorem classes_dom cfg pd :
   dom_C10 CSC pd = true -> known_C10 CSC (sc_package cfg) pd = [] -> known_C10_sc_grammar (sc_package cfg) pd = [] -> c10_scg_overrides_ok pd ->
-  c10_scg_dom pd /\ c10_scg_toplevel_ok cfg pd.
+  c10_scg_dom pd.
 Proof.
   intros Hdom Hk Hg Hov.
   cbn [known_C10] in Hk. unfold c10_cls10 in Hk. apply cls_nil in Hk as [Hdef Hk]. apply cls_nil1 in Hk as Hdig.
-  unfold known_C10_sc_grammar in Hg. apply cls_nil in Hg as [Hkw Hg]. apply cls_nil in Hg as [Htop Hg]. apply cls_nil1 in Hg as Hcon.
+  unfold known_C10_sc_grammar in Hg. cbv zeta in Hg. apply cls_nil in Hg as [Hkw Hg]. apply cls_nil1 in Hg as Hcon.
   pose proof (existsb_false_forall _ _ Hdef) as Fdef. pose proof (existsb_false_forall _ _ Hdig) as Fdig. unfold c10_scg_overrides_ok in Hov. rewrite Forall_forall in Hov.
   unfold dom_C10 in Hdom. rewrite !forallb_app in Hdom. rewrite !andb_true_iff in Hdom. destruct Hdom as [Hal [Hst [Hen _]]].
   unfold c10_sc_kw_class in Hkw. rewrite !orb_false_iff in Hkw. destruct Hkw as [[Kst Ken] Kal].
@@ -891,8 +880,7 @@ Proof.
     unfold c10_field_ok in Hf. rewrite !andb_true_iff in Hf. destruct Hf as [[[Hid _] _] _]. unfold c10_member_id_ok in Hid. apply andb_true_iff in Hid as [_ Hren].
     split; [split; [apply key_sc_ident; [exact Hren|exact (Fdig f Hin)]|exact K1]|]. split; [exact K2|]. split; [exact (Hov f Hin)|].
     intros Hd. specialize (Fdef f Hin). cbn beta in Fdef. rewrite Hd in Fdef. cbn [andb] in Fdef. apply negb_false_iff in Fdef. exact Fdef. }
-  split.
-  - unfold c10_scg_dom, items_of. rewrite !Forall_app. split; [|split; [|split]].
+  unfold c10_scg_dom, items_of. rewrite !Forall_app. split; [|split; [|split]].
     + apply Forall_forall. intros it Hin. apply in_map_iff in Hin as (a & <- & Ha). cbn [c10_scg_item_ok].
       pose proof (existsb_false_forall _ _ Kal a Ha) as K. cbn beta in K. rewrite !orb_false_iff in K. destruct K as [[K1 K2] K3].
       split; [exact K1|]. split; [exact (existsb_false_Forall _ _ K2)|exact K3].
@@ -922,9 +910,6 @@ Proof.
           (split; [|exact K4]; apply andb_false_iff in Kc as [Kc|Kc]; [apply negb_false_iff in Kc; exact Kc|];
            pose proof (existsb_false_forall _ _ Kc _ Hvin) as Kv; discriminate).
     + apply Forall_forall. intros it Hin. apply in_map_iff in Hin as (c & <- & _). exact I.
-  - unfold c10_sc_toplevel_class in Htop. unfold c10_scg_toplevel_ok. apply andb_false_iff in Htop as [Ht|Ht].
-    + left. apply negb_false_iff in Ht. exact Ht.
-    + right. apply orb_false_iff in Ht as [Ha Hu]. split; [destruct (p_aliases pd); [reflexivity|discriminate]|]. rewrite unsigned_used_eq. exact Hu.
 Qed.
 
 (* the whole-file theorem with the grammar domain spelled as "in no recorded finding class" *)
@@ -934,8 +919,8 @@ Theorem sc_generate_recognised_classes uc cfg pd text :
   sc_generate uc cfg pd = Ok text ->
   exists n, c10_sc_recognise text = Some n /\ (List.length (p_aliases pd) + List.length (p_structs pd) + List.length (p_enums pd) <= n)%nat.
 Proof.
-  intros Hcfg Gcfg Hdom Hk Hg Hov H. destruct (classes_dom cfg pd Hdom Hk Hg Hov) as [Gdom Gtop].
-  exact (sc_generate_recognised uc cfg pd text Hcfg Gcfg Hdom Gdom Gtop H).
+  intros Hcfg Gcfg Hdom Hk Hg Hov H. pose proof (classes_dom cfg pd Hdom Hk Hg Hov) as Gdom.
+  exact (sc_generate_recognised uc cfg pd text Hcfg Gcfg Hdom Gdom H).
 Qed.
 
 Lemma dom_fields pd : c10_scg_dom pd -> Forall c10_scg_field_ok (c10_all_fields pd).
@@ -1018,3 +1003,21 @@ Example C10_sc_grammar_simple_nonvacuous :
   known_C10 CSC (sc_package g_cfg) s_prog = [] /\ known_C10_sc_grammar (sc_package g_cfg) s_prog = [] /\ c10_scg_overrides_simple s_prog = true /\
   exists text, sc_generate uc_exec g_cfg s_prog = Ok text /\ contains_sub (lit "when: Instant") text = true /\ c10_sc_recognise text = Some 11%nat.
 Proof. repeat split; try (vm_compute; reflexivity). eexists. repeat split; vm_compute; reflexivity. Qed.
+
+(* C10-scala-toplevel-alias is repaired in /repo (scala.rs begin_package_object / begin_package always open a block named by the
+   last segment of the package name): the former witness as a regression pin - the exact file under the dotless package `p` *)
+Definition t_text : str :=
+  lit "package object p {" ++ [10] ++ [10] ++
+  lit "type UByte = Byte" ++ [10] ++ lit "type UShort = Short" ++ [10] ++ lit "type UInt = Int" ++ [10] ++ lit "type ULong = Int" ++ [10] ++ [10] ++
+  lit "type Al = Vector[UInt]" ++ [10] ++ [10] ++
+  lit "}" ++ [10] ++
+  lit "package p {" ++ [10] ++ [10] ++
+  lit "case class A (" ++ [10] ++ [9] ++ lit "x: UByte" ++ [10] ++ lit ")" ++ [10] ++ [10] ++
+  lit "}" ++ [10].
+Lemma scala_toplevel_alias_fixed :
+  Proofs.C10_SC.c10_sc_cfg_ok t_cfg = true /\ c10_scg_cfg_simple t_cfg = true /\ contains_char sc_ch_dot (sc_package t_cfg) = false /\
+  dom_C10 CSC t_prog = true /\ known_C10 CSC (sc_package t_cfg) t_prog = [] /\
+  known_C10_sc_grammar (sc_package t_cfg) t_prog = [] /\ c10_scg_overrides_simple t_prog = true /\
+  sc_generate uc_exec t_cfg t_prog = Ok t_text /\
+  good_C10_lex CSC t_text = true /\ c10_sc_recognise t_text = Some 6%nat.
+Proof. repeat split; vm_compute; reflexivity. Qed.
